@@ -1,0 +1,11 @@
+//go:build verif
+
+package bivariate
+
+// RingPtr returns the ring object f belongs to.
+func (f *Polynomial) RingPtr() *QuotientRing { return f.baseRing }
+
+// Flags returns the cached answers of IsGroebner, IsMinimal and IsReduced (0 undecided, 1 true, -1 false).
+func (id *Ideal) Flags() (isGroebner, isMinimal, isReduced int8) {
+	return id.isGroebner, id.isMinimal, id.isReduced
+}
